@@ -49,13 +49,17 @@ func TestVerifC06(t *testing.T) {
 	defer out.Close()
 	if p := os.Getenv("VERIF_REPLAY"); p != "" {
 		if scn, ok := vhloopLoadReplay(p); ok {
-			out.Emit(vhloopRun("C06", scn))
+			if !vhloopEmit(out, vhloopRun("C06", scn)) {
+				return
+			}
 			return
 		}
 	}
 	r := vhRand()
 	for _, scn := range vh06Corpus() {
-		out.Emit(vhloopRunB("C06", scn))
+		if !vhloopEmit(out, vhloopRunB("C06", scn)) {
+			return
+		}
 	}
 	// larger batches, random release order; the biggest ones once over the fragmenting writer
 	sizes := []int{8, 16, 32, 64}
@@ -65,7 +69,9 @@ func TestVerifC06(t *testing.T) {
 			reps = 8
 		}
 		for k := 0; k < reps; k++ {
-			out.Emit(vhloopRunB("C06", vhloopBatch(vhloopName("batch%d-rand%d", n, k), n, r.Perm(n), k == 1 && n <= 16, k%2 == 0)))
+			if !vhloopEmit(out, vhloopRunB("C06", vhloopBatch(vhloopName("batch%d-rand%d", n, k), n, r.Perm(n), k == 1 && n <= 16, k%2 == 0))) {
+				return
+			}
 		}
 	}
 	nrand := 60
@@ -73,7 +79,8 @@ func TestVerifC06(t *testing.T) {
 		nrand = 600
 	}
 	for k := 0; k < nrand; k++ {
-		out.Emit(vhloopRunB("C06", vhloopRandom(r, vhloopName("rand%d", k), 10+r.Intn(40), 2+r.Intn(12), k%10 == 9)))
+		if !vhloopEmit(out, vhloopRunB("C06", vhloopRandom(r, vhloopName("rand%d", k), 10+r.Intn(40), 2+r.Intn(12), k%10 == 9))) {
+			return
+		}
 	}
 }
-
